@@ -596,8 +596,18 @@ func randomHistory(e *env, name string, seed, idx uint64, newState bool) {
 			if int64(n) < w.l1 && r.Chance(3, 4) {
 				n = uint64(w.l1) // L1 heads rarely move back
 			}
-			w.writeL1(n)
-			w.event("l1", n, 0, w.randomPlan(r))
+			if r.Chance(1, 4) {
+				// Blockchain.SetL1Head publishes the event BEFORE it writes the head: the pruner may handle it first
+				nn := n
+				w.specL1 = &nn
+				w.event("l1", n, 0, w.randomPlan(r))
+				w.specL1 = nil
+				w.writeL1(n)
+				w.res.Hit("interleave:l1-event-before-the-head-is-written")
+			} else {
+				w.writeL1(n)
+				w.event("l1", n, 0, w.randomPlan(r))
+			}
 		case k < 66:
 			// a late / repeated new-head event for an older block
 			n := uint64(r.Intn(w.height + 1))
